@@ -137,11 +137,14 @@ func (v *verifSanitizer) show(o verifObligation, item any, field string) {
 		return
 	}
 	panicked, what := verifkit.Try(func() {
+		/* the very first drawing of a fresh item, at the width markup is pre-rendered for (80): nothing may be
+		   left over from before the text was cleaned */
+		v.emit(o, "preview", t.Preview(80), field)
 		v.emit(o, "name", t.Name(), field)
 		v.emit(o, "string", t.String(80), field)
 		v.emit(o, "preview", t.Preview(23), field)
 		if os.Getenv("VERIF_TIER") == "thorough" {
-			v.emit(o, "preview", t.Preview(80), field)
+			v.emit(o, "string", t.String(84), field)
 			v.emit(o, "string", t.String(23), field)
 		}
 		if parents, _ := t.Parents(1); len(parents) > 0 {
@@ -219,7 +222,7 @@ func (v *verifSanitizer) obligation(o verifObligation, all bool) {
 				media := map[string]string{"html_text": "text/html", "markdown": "text/markdown", "gemtext": "text/gemini", "plaintext": "text/plain"}[o.Src]
 				wraps := []string{"%s"}
 				if o.Src == "html_text" {
-					wraps = []string{"<p>%s</p>", "<pre>%s</pre>", "<code>%s</code>", "<blockquote><b>%s</b></blockquote>", "<a href=\"https://e.example/\">%s</a>", "<unknown>%s</unknown>", "<ul><li>%s</li></ul>", "<h2>%s</h2>"}
+					wraps = []string{"<p>%s</p>", "<unk%s>t</unk>", "<p><x-%s y=\"1\">t</p>", "<pre>%s</pre>", "<code>%s</code>", "<blockquote><b>%s</b></blockquote>", "<a href=\"https://e.example/\">%s</a>", "<unknown>%s</unknown>", "<ul><li>%s</li></ul>", "<h2>%s</h2>"}
 				}
 				if o.Src == "markdown" {
 					wraps = []string{"%s", "**%s**", "> %s", "`%s`", "[%s](https://e.example/)", "# %s", "    %s"}
